@@ -105,11 +105,18 @@ func statusNo(s keyset.KeyStatus) uint64 {
 func (w *world) genKeyset(class string, r *hlib.Rng) ([]ksEntry, *keyset.Handle, error) {
 	pool := w.pools[class]
 	n := 1 + r.Intn(6)
+	return w.genKeysetFrom(func(int) *gcase { return pool[r.Intn(len(pool))] }, n, r)
+}
+
+// genKeysetFrom builds a keyset of n entries; pick(i) names the grid point of entry i (it is asked
+// again when the drawn key id is already taken or the point is a second slow one). Ids, statuses
+// and the primary are drawn from r.
+func (w *world) genKeysetFrom(pick func(i int) *gcase, n int, r *hlib.Rng) ([]ksEntry, *keyset.Handle, error) {
 	used := map[uint32]bool{}
 	var es []ksEntry
 	slowBudget := 1
 	for len(es) < n {
-		c := pool[r.Intn(len(pool))]
+		c := pick(len(es))
 		if c.slow {
 			if slowBudget == 0 {
 				continue
@@ -674,16 +681,33 @@ func describe(es []ksEntry) string {
 	return s
 }
 
+// adClass is one associated-data class of the encrypted keyset writers.
+type adClass struct {
+	name string
+	ad   []byte
+}
+
+// ksRun is the state shared by the keysets of one keyset stream: the key-encryption keys, the
+// associated-data classes and the rotating (kek, ad, format, api) combination counter.
+type ksRun struct {
+	keks  []kek
+	ads   []adClass
+	combo int
+	// nCombos: encrypted (kek, ad, format, api) combinations per keyset; 0 = 8 (quick) / 16 (thorough)
+	nCombos int
+}
+
+func newKsRun(r *hlib.Rng) *ksRun {
+	keks := makeKEKs(r)
+	ads := []adClass{{"no-ad(Write)", nil}, {"empty", []byte{}}, {"short", []byte("ad")}, {"100-bytes", r.Bytes(100)}}
+	return &ksRun{keks: keks, ads: ads}
+}
+
 func (w *world) keysetStream(r *hlib.Rng) {
 	o := w.o
-	keks := makeKEKs(r)
-	ads := []struct {
-		name string
-		ad   []byte
-	}{{"no-ad(Write)", nil}, {"empty", []byte{}}, {"short", []byte("ad")}, {"100-bytes", r.Bytes(100)}}
+	run := newKsRun(r)
 	classes := []string{"aead", "daead", "mac", "prf", "sig", "hyb", "saead", "jwtmac", "jwtsig", "kd"}
 	perClass := map[string]int{"aead": 100, "daead": 40, "mac": 80, "prf": 50, "sig": 80, "hyb": 80, "saead": 40, "jwtmac": 40, "jwtsig": 50, "kd": 40}
-	combo := 0
 	for _, class := range classes {
 		if len(w.pools[class]) == 0 {
 			o.Count("keyset-class-empty/" + class)
@@ -697,6 +721,19 @@ func (w *world) keysetStream(r *hlib.Rng) {
 				w.violate("keyset/build-fails/"+class, "%v", err)
 				continue
 			}
+			w.keysetRoundTrips(run, class, it, es, h)
+		}
+	}
+}
+
+// keysetRoundTrips sends one keyset (built from the entries es) through every writer/reader pair:
+// cleartext (binary, JSON, mem), encrypted (rotating kek × associated data × format × api),
+// Public() and the public-only writers/readers, with the primitive interoperability checks.
+func (w *world) keysetRoundTrips(run *ksRun, class string, it int, es []ksEntry, h *keyset.Handle) {
+	o := w.o
+	keks, ads := run.keks, run.ads
+	{
+		{
 			desc := class + ":" + describe(es)
 			o.Count("keyset-class/" + class)
 			o.Count(fmt.Sprintf("keyset-size/%d", len(es)))
@@ -709,7 +746,7 @@ func (w *world) keysetStream(r *hlib.Rng) {
 			}
 			if d := matchesEntries(h, es, false); d != "" {
 				w.violate("keyset/manager-handle-differs-from-entries", "%s: %s", desc, d)
-				continue
+				return
 			}
 			if why := ksLossyOf(es); why != "" {
 				// keysets known to be unreadable on the unchanged tree: if the first read fails the
@@ -717,11 +754,11 @@ func (w *world) keysetStream(r *hlib.Rng) {
 				var buf bytes.Buffer
 				if err := insecurecleartextkeyset.Write(h, keyset.NewBinaryWriter(&buf)); err != nil {
 					w.violate("keyset/write-fails/cleartext/binary", "%s: %v", desc, err)
-					continue
+					return
 				}
 				if _, err := insecurecleartextkeyset.Read(keyset.NewBinaryReader(&buf)); err != nil {
 					w.violate("LOSSY-KEYSET "+why, "%s: insecurecleartextkeyset.Write succeeds, Read of the written bytes fails: %v", desc, err)
-					continue
+					return
 				}
 				o.Count("keyset-lossy-class-reads-now")
 			}
@@ -780,10 +817,13 @@ func (w *world) keysetStream(r *hlib.Rng) {
 			// ---- encrypted
 			total := len(keks) * len(ads) * len(formats) * 2
 			nCombos := hlib.N(8, 16)
+			if run.nCombos > 0 {
+				nCombos = run.nCombos
+			}
 			_ = total
 			for j := 0; j < nCombos; j++ {
-				x := combo
-				combo++
+				x := run.combo
+				run.combo++
 				kk := keks[x%len(keks)]
 				adc := ads[(x/len(keks))%len(ads)]
 				f := formats[(x/(len(keks)*len(ads)))%len(formats)]
@@ -857,15 +897,15 @@ func (w *world) keysetStream(r *hlib.Rng) {
 				} else {
 					o.Count("public-refused-for-symmetric/" + class)
 				}
-				continue
+				return
 			}
 			if perr != nil {
 				w.violate("keyset/Public-fails/"+class, "%s: %v", desc, perr)
-				continue
+				return
 			}
 			if d := matchesEntries(pub, es, true); d != "" {
 				w.violate("keyset/Public-does-not-match-private-keys/"+class, "%s: %s", desc, d)
-				continue
+				return
 			}
 			o.Count("public-matches/" + class)
 			if err := h.WriteWithNoSecrets(keyset.NewBinaryWriter(&bytes.Buffer{})); err == nil {
